@@ -34,10 +34,28 @@ Definition c14_explain (c : c14_case) :=
 (* ---- C02 ---- *)
 (* observed cell: coordinates, value (None = NaN), validity flag (true when the format has none) *)
 Definition obs_cell := (list Z * option Z * bool)%type.
+(* Dense blocks are written compactly (big literals dominate the cost of a shard): one code per cell in row-major
+   order of the shape, code = 4 * value + (0 valid value | 1 valid NaN | 2 invalid value | 3 invalid NaN). *)
+Fixpoint box_cells (shape : list Z) : list (list Z) :=
+  match shape with
+  | [] => [[]]
+  | e :: s => flat_map (fun k => map (cons k) (box_cells s)) (rowrange e)
+  end.
+Definition decode_cell (code : Z) : option Z * bool :=
+  let k := code mod 4 in ((if (k =? 1) || (k =? 3) then None else Some (code / 4)), k <? 2).
+Definition dense_cells (shape codes : list Z) : list obs_cell :=
+  match codes with [] => [] | _ =>          (* no codes: do not enumerate the (possibly huge) box *)
+  map (fun cc : list Z * Z => (fst cc, fst (decode_cell (snd cc)), snd (decode_cell (snd cc)))) (combine (box_cells shape) codes)
+  end.
+Definition codes_ok (shape codes : list Z) : bool :=
+  match codes with [] => true | _ => Nat.eqb (length codes) (length (box_cells shape)) end.
 (* N, (sliced) dims, interacting shape used by the cube, Some (first coordinates of ALL keys of each unsliced
-   dimension in dict order, common) when the shape was inferred, (format, null), cells, IndexError raised
+   dimension in dict order, common) when the shape was inferred, (format, null), explicitly listed cells, row-major
+   codes of ALL cells (or [] when the cells are listed explicitly), IndexError raised
    format 0 = NaN, 1 = (null, False) pair, 2 = plain null *)
-Definition c02_case := (Z * list dimlit * list Z * option (list (list Z * Z)) * (Z * Z) * list obs_cell * bool)%type.
+Definition c02_case := (Z * list dimlit * list Z * option (list (list Z * Z)) * (Z * Z) * list obs_cell * list Z * bool)%type.
+Definition c02_cells (shape : list Z) (cells : list obs_cell) (codes : list Z) : list obs_cell :=
+  cells ++ dense_cells shape codes.
 
 Definition cell_expect (fmt null : Z) (vm : Z * bool) : option Z * bool :=
   if Z.eqb fmt 0 then (report_nan vm, true)
@@ -49,7 +67,8 @@ Definition cell_expect (fmt null : Z) (vm : Z * bool) : option Z * bool :=
    C02_count, then demanding the theorem's hypotheses dim_wf_b / covers_b).  CountProofs.count_lookup_spec:
    count_lookup_ok = true -> in_shape -> count_lookup N dims shape cell = fst (count_cube N dims shape cell). *)
 Definition c02_check (c : c02_case) : bool :=
-  let '(N, dl, shape, inferred, (fmt, null), cells, raised) := c in
+  let '(N, dl, shape, inferred, (fmt, null), cells0, codes, raised) := c in
+  let cells := c02_cells shape cells0 codes in
   let dims := mkdims dl in
   forallb (dim_wf_b N) dims
   && match inferred with
@@ -57,7 +76,7 @@ Definition c02_check (c : c02_case) : bool :=
      | None => true
      end
   && (if raised then negb (cube_ok shape dims)
-      else cube_ok shape dims && count_lookup_ok N dims shape &&
+      else cube_ok shape dims && count_lookup_ok N dims shape && codes_ok shape codes &&
            let R := count_lookup N dims shape in
            forallb (fun oc : obs_cell =>
                       let '(cell, v, valid) := oc in
@@ -66,7 +85,8 @@ Definition c02_check (c : c02_case) : bool :=
 
 (* the specification side on the same cells (only meaningful when covers_b holds) *)
 Definition c02_spec_check (c : c02_case) : bool :=
-  let '(N, dl, shape, inferred, (fmt, null), cells, raised) := c in
+  let '(N, dl, shape, inferred, (fmt, null), cells0, codes, raised) := c in
+  let cells := c02_cells shape cells0 codes in
   let dims := mkdims dl in
   if covers_b shape dims && negb raised then
     forallb (fun oc : obs_cell =>
@@ -77,7 +97,8 @@ Definition c02_spec_check (c : c02_case) : bool :=
   else negb (covers_b shape dims && raised).
 
 Definition c02_explain (c : c02_case) :=
-  let '(N, dl, shape, inferred, (fmt, null), cells, raised) := c in
+  let '(N, dl, shape, inferred, (fmt, null), cells0, codes, raised) := c in
+  let cells := c02_cells shape cells0 codes in
   let dims := mkdims dl in
   (forallb (dim_wf_b N) dims, infer_shape dims, cube_ok shape dims, covers_b shape dims,
    count_lookup_ok N dims shape,
